@@ -32,7 +32,7 @@ func init() {
 		ID: "C15",
 		Cases: func(tier string) int {
 			if tier == "thorough" {
-				return c15ServerHS + c15ClientHS + 3000
+				return c15ServerHS + c15ClientHS + 2000
 			}
 			return c15ServerHS + c15ClientHS + 270
 		},
@@ -323,7 +323,7 @@ func c15Sizes(c *Case) {
 	r := c.Rng
 	// nibble 0 (512 bytes) cannot even carry the router's WELCOME; it is covered by the handshake table
 	nib := pick(r, []int{1, 2, 3, 7, 15})
-	if c.Tier != "thorough" && nib == 15 {
+	if nib == 15 && (c.Tier != "thorough" || c.Index%8 != 0) {
 		nib = pick(r, []int{1, 2, 3, 7})
 	}
 	kind := pick(r, []sim.Kind{sim.RawJSON, sim.RawMsgpack, sim.RawCBOR})
@@ -355,12 +355,20 @@ func c15Sizes(c *Case) {
 		s.Take()
 		// ---- router -> client: payload sizes around the client's limit
 		var sizes []int
-		for d := -90; d <= 30; d += 6 {
+		step := 6
+		if nib == 15 {
+			step = 60 // 16 MiB messages: three of them around the limit are enough (each costs seconds under the race detector)
+		}
+		for d := -90; d <= 30; d += step {
 			if n := limit + d - 60; n > 0 {
 				sizes = append(sizes, n)
 			}
 		}
-		sizes = append(sizes, 1, limit/2, limit*2)
+		if nib == 15 {
+			sizes = append(sizes, 1)
+		} else {
+			sizes = append(sizes, 1, limit/2, limit*2)
+		}
 		for i, n := range sizes {
 			pub.Send(&wamp.Publish{Request: wamp.ID(10 + i), Options: wamp.Dict{}, Topic: "big", Arguments: wamp.List{i, strings.Repeat("z", n)}})
 			pub.Send(&wamp.Publish{Request: wamp.ID(5000 + i), Options: wamp.Dict{}, Topic: "big", Arguments: wamp.List{i, "marker"}})
